@@ -281,25 +281,41 @@ def naming(eng: Engine, ctx: Ctx, rid: str, model: DecoderModel):
     n = 0
     loops = [(lid, info) for lid, info in se.loop_info.items() if info.get("iter") == model.idxp]
     loc = eng.loc(f, f.node)
-    ctx.check(len(loops) == 1, rid, f.qualname, "loop over the index stack", expected="one `for i in index` building the indexed name", found=str(len(loops)), **loc)
-    if len(loops) != 1:
-        return
-    lid, info = loops[0]
-    names = [v for v in info["assigned"] if (info.get("pre") or {}).get(v) == anamT]
-    ctx.check(len(names) == 1, rid, f.qualname, "indexed name starts as the field key", expected="name variable initialised with the key parameter", found=str(names), **eng.loc(f, info["node"]))
-    if len(names) != 1:
-        return
-    nv = names[0]
-    elem = ("elem", model.idxp, lid)
-    body = (info.get("body_end") or {}).get(nv)
-    app = ("bin", "+", ("loop", lid, nv), ("fstr", (("const", sep), ("fmt", elem, spec, -1))))
-    okb = body == app or (body is not None and body[0] == "ite" and body[2] == app and body[3] == ("loop", lid, nv) and body[1] in (("cmp", ">", elem, ("const", 0)), ("cmp", ">=", elem, ("const", 1)), ("cmp", "!=", elem, ("const", 0)), elem))
-    ctx.check(bool(okb), rid, f.qualname, "suffix appended per index level", expected=f"name += f'{sep}{{i:{spec}}}' for every level (i >= 1)", found=show(body)[:120] if body else "-", **eng.loc(f, info["node"]))
-    ctx.check(spec == "02d" and sep == "_", rid, f.qualname, "suffix format", expected="'_' + two-digit zero-padded index", found=f"{sep!r} + ':{spec}'", **eng.loc(f, info["node"]))
+    name_terms = set()
+    if len(loops) == 1:
+        lid, info = loops[0]
+        names = [v for v in info["assigned"] if (info.get("pre") or {}).get(v) == anamT]
+        ctx.check(len(names) == 1, rid, f.qualname, "indexed name starts as the field key", expected="name variable initialised with the key parameter", found=str(names), **eng.loc(f, info["node"]))
+        if len(names) != 1:
+            return
+        nv = names[0]
+        elem = ("elem", model.idxp, lid)
+        body = (info.get("body_end") or {}).get(nv)
+        app = ("bin", "+", ("loop", lid, nv), ("fstr", (("const", sep), ("fmt", elem, spec, -1))))
+        okb = body == app or (body is not None and body[0] == "ite" and body[2] == app and body[3] == ("loop", lid, nv) and body[1] in (("cmp", ">", elem, ("const", 0)), ("cmp", ">=", elem, ("const", 1)), ("cmp", "!=", elem, ("const", 0)), elem))
+        ctx.check(bool(okb), rid, f.qualname, "suffix appended per index level", expected=f"name += f'{sep}{{i:{spec}}}' for every level (i >= 1)", found=show(body)[:120] if body else "-", **eng.loc(f, info["node"]))
+        name_terms.add(("loopout", lid, nv))
+    else:
+        # comprehension form: key + "".join(f"<sep>{i:<spec>}" for i in index [if i > 0])
+        cand = None
+        for e in se.effects:
+            if e.kind == "call" and e.term[2] == ("builtin", "setattr") and len(e.term[3]) == 3:
+                nm = e.term[3][1]
+                if nm[0] == "bin" and nm[1] == "+" and nm[2] == anamT and nm[3][0] == "call" and nm[3][2] == ("attr", ("const", ""), "join") and len(nm[3][3]) == 1 and nm[3][3][0][0] == "comp":
+                    comp = nm[3][3][0]
+                    okc = comp[2] == ("fstr", (("const", sep), ("fmt", ("elem", model.idxp, comp[3]), spec, -1)))
+                    if okc:
+                        cand = nm
+        ctx.check(cand is not None, rid, f.qualname, "indexed name", expected=f"key + one '{sep}{{i:{spec}}}' per index level (loop or join over the index stack)", found="no such construction found", **loc)
+        if cand is None:
+            return
+        name_terms.add(cand)
+        lid, nv = None, None
+    ctx.check(spec == "02d" and sep == "_", rid, f.qualname, "suffix format", expected="'_' + two-digit zero-padded index", found=f"{sep!r} + ':{spec}'", **loc)
     # the generic store uses that name; text fields use the bare key
     sets = [e for e in se.effects if e.kind == "call" and e.term[2] == ("builtin", "setattr") and len(e.term[3]) == 3]
     tc = eng.tables.type_consts
-    gen = [e for e in sets if e.term[3][1] in (("loopout", lid, nv), anamT)]
+    gen = [e for e in sets if e.term[3][1] in name_terms or e.term[3][1] == anamT]
     for e in gen:
         n += 1
         isstr = any(c[0] == "cmp" and c[1] == "==" and c[3] == ("const", tc["STR"]) and pol for c, pol in e.guards)
@@ -450,10 +466,27 @@ def groups(eng: Engine, ctx: Ctx, rid6: str, rid7: str, rid8: str, model: Decode
         if it is None:
             bad.setdefault("iteration loops", []).append((des, f"repetitions are driven by `while {show(info.get('test', ('?',)))[:60]}`, not by a counted loop over the announced count"))
             continue
+        first = None  # value of the loop variable in the first iteration
         if is_const(it) and isinstance(it[1], range):
-            cnt = ("const", len(it[1])) if it[1].start == 0 and it[1].step == 1 else None
+            cnt = ("const", len(it[1])) if it[1].step == 1 else None
+            first = it[1].start
         elif it[0] == "call" and it[2] == ("builtin", "range") and len(it[3]) == 1:
-            cnt = it[3][0]
+            cnt, first = it[3][0], 0
+        elif it[0] == "call" and it[2] == ("builtin", "range") and len(it[3]) == 2 and is_const(it[3][0]) and isinstance(it[3][0][1], int):
+            first = it[3][0][1]
+            hi = it[3][1]
+            # range(a, n + a): n repetitions
+            pc = to_poly(("bin", "-", hi, it[3][0]), lambda t: "CNT" if (t[0] == "call" and t[2] == ("builtin", "getattr")) else show(t))
+            cnt = None
+            for st in subterms(hi):
+                if isinstance(st, tuple) and st and st[0] == "call" and st[2] == ("builtin", "getattr"):
+                    g0 = st
+                    if pc is not None and pc == Poly.sym("CNT"):
+                        cnt = g0
+                    elif pc is not None and pc == Poly.sym("CNT") + 1:
+                        cnt = ("bin", "+", g0, ("const", 1))
+            if cnt is None and pc is not None and pc.is_const():
+                cnt = ("const", int(pc.const_value()))
         else:
             cnt = None
         if isinstance(des, int):
@@ -483,7 +516,8 @@ def groups(eng: Engine, ctx: Ctx, rid6: str, rid7: str, rid8: str, model: Decode
         pops = [e for e in se.effects if e.kind == "call" and e.term[2][0] == "attr" and e.term[2][2] == "pop" and not e.term[3] and not e.loops]
         sets = [e for e in se.effects if e.kind == "setitem" and e.loops == (lid,) and e.target[2] == ("const", -1)]
         elem = ("elem", it, lid)
-        oki = (len(pushes) == 1 and len(pops) == 1 and len(sets) == 1 and sets[0].term == ("bin", "+", elem, ("const", 1)) and pushes[0].seq < sets[0].seq < pops[0].seq
+        want_idx = elem if first == 1 else (("bin", "+", elem, ("const", 1 - first)) if first is not None and first < 1 else None)
+        oki = (len(pushes) == 1 and len(pops) == 1 and len(sets) == 1 and want_idx is not None and sets[0].term == want_idx and pushes[0].seq < sets[0].seq < pops[0].seq
                and pops[0].term[2][1][0] in ("loopout", "param"))
         if not oki:
             bad.setdefault("index discipline", []).append((des, f"push {len(pushes)} set {[show(s.term) for s in sets]} pop {len(pops)}"))
@@ -657,7 +691,13 @@ def public_attributes(eng: Engine, ctx: Ctx, rid: str, model: DecoderModel):
                 if is_const(nm) and isinstance(nm[1], str):
                     ok = nm[1].startswith("_") or nm[1] in allowed_consts or (f.qualname == eng.stub_routine and nm[1] in T.fields)
                 elif f.qualname == eng.single_field_routine:
-                    ok = nm == ("param", model.anam) or (nm[0] == "loopout" and True)
+                    # the field key itself, or the key extended by index suffixes (loop-built or key + join(...))
+                    ok = nm == ("param", model.anam) or nm[0] == "loopout" or (nm[0] == "bin" and nm[1] == "+" and nm[2] == ("param", model.anam))
+                    if not ok and nm[0] == "idx" and nm[1][0] == "gval" and isinstance(nm[1][1].v, dict) and nm[2] == ("param", model.anam):
+                        # table-driven bookkeeping: every name the table can yield must be admissible
+                        vals = list(nm[1][1].v.values())
+                        ok = bool(vals) and all(isinstance(v, str) and (v.startswith("_") or v in allowed_consts) for v in vals)
+                        why = f"table lookup yielding {vals[:4]}"
                 ctx.check(ok, rid, f.qualname, norm(e.node)[:80], expected="field-derived name, MSM counter or private name", found=why, **eng.loc(f, e.node))
             if e.kind in ("store", "aug") and e.target and e.target[0] == "self" and f.name != "__init__":
                 ctx.check(e.target[1].startswith("_"), rid, f.qualname, norm(e.node)[:80], expected="private name", found=e.target[1], **eng.loc(f, e.node))
